@@ -9,6 +9,7 @@ import (
 	"io"
 	"os"
 	"path/filepath"
+	"regexp"
 	"sort"
 	"strconv"
 	"strings"
@@ -2128,8 +2129,13 @@ func (d *Document) parseBodyElement(decoder *xml.Decoder) error {
 func (d *Document) parseBodySubElement(decoder *xml.Decoder, startElement xml.StartElement) (interface{}, error) {
 	switch startElement.Name.Local {
 	case "p":
-		// 解析段落
-		return d.parseParagraph(decoder, startElement)
+		// 解析段落；带有数学公式的段落还原为公式段落
+		var formula parsedFormula
+		paragraph, err := d.parseParagraphWithFormula(decoder, startElement, &formula)
+		if err != nil || paragraph == nil || (formula.inline == nil && formula.block == nil) {
+			return paragraph, err
+		}
+		return &MathParagraph{Properties: paragraph.Properties, Math: formula.inline, MathPara: formula.block, Runs: paragraph.Runs}, nil
 	case "tbl":
 		// 解析表格
 		return d.parseTable(decoder, startElement)
@@ -2329,8 +2335,42 @@ func (d *Document) parseSDTEndProperties(decoder *xml.Decoder) (*SDTEndPr, error
 	}
 }
 
+// parsedFormula 保存段落中读到的数学公式（OMML原文）
+type parsedFormula struct {
+	inline *OfficeMath
+	block  *OfficeMathPara
+}
+
+// ommlPrefixPattern 找出OMML原文中使用的命名空间前缀
+var ommlPrefixPattern = regexp.MustCompile(`</?([A-Za-z_][\w.-]*):`)
+
+// readFormula 读取 m:oMath 元素的内部XML原文。写出时原文被放进本库自己的 m:oMath 元素里，
+// 那里只声明了 m 前缀（w 前缀由文档根元素声明），所以原文使用其他前缀时放弃读取。
+func (d *Document) readFormula(decoder *xml.Decoder, start *xml.StartElement) (*OfficeMath, error) {
+	var raw struct {
+		Inner string `xml:",innerxml"`
+	}
+	if err := decoder.DecodeElement(&raw, start); err != nil {
+		return nil, WrapError("parse_formula", err)
+	}
+	for _, match := range ommlPrefixPattern.FindAllStringSubmatch(raw.Inner, -1) {
+		if match[1] != "m" && match[1] != "w" {
+			return nil, nil
+		}
+	}
+	if strings.Contains(raw.Inner, "xmlns") {
+		return nil, nil
+	}
+	return &OfficeMath{Xmlns: "http://schemas.openxmlformats.org/officeDocument/2006/math", RawXML: raw.Inner}, nil
+}
+
 // parseParagraph 解析段落
 func (d *Document) parseParagraph(decoder *xml.Decoder, startElement xml.StartElement) (*Paragraph, error) {
+	return d.parseParagraphWithFormula(decoder, startElement, nil)
+}
+
+// parseParagraphWithFormula 解析段落；formula 不为 nil 时，段落中的数学公式读入其中，否则跳过
+func (d *Document) parseParagraphWithFormula(decoder *xml.Decoder, startElement xml.StartElement, formula *parsedFormula) (*Paragraph, error) {
 	paragraph := &Paragraph{
 		Runs: make([]Run, 0),
 	}
@@ -2357,6 +2397,43 @@ func (d *Document) parseParagraph(decoder *xml.Decoder, startElement xml.StartEl
 				}
 				if run != nil {
 					paragraph.Runs = append(paragraph.Runs, *run)
+				}
+			case "oMath", "oMathPara":
+				// 数学公式（只在正文段落中还原；其他位置保持跳过）
+				if formula == nil || formula.inline != nil || formula.block != nil {
+					if err := d.skipElement(decoder, t.Name.Local); err != nil {
+						return nil, err
+					}
+					break
+				}
+				if t.Name.Local == "oMath" {
+					math, err := d.readFormula(decoder, &t)
+					if err != nil {
+						return nil, err
+					}
+					formula.inline = math
+					break
+				}
+				// m:oMathPara：取其中的 m:oMath
+				var para struct {
+					Math struct {
+						Inner string `xml:",innerxml"`
+					} `xml:"oMath"`
+				}
+				if err := decoder.DecodeElement(&para, &t); err != nil {
+					return nil, WrapError("parse_formula_paragraph", err)
+				}
+				usable := !strings.Contains(para.Math.Inner, "xmlns")
+				for _, match := range ommlPrefixPattern.FindAllStringSubmatch(para.Math.Inner, -1) {
+					if match[1] != "m" && match[1] != "w" {
+						usable = false
+					}
+				}
+				if usable {
+					formula.block = &OfficeMathPara{
+						Xmlns: "http://schemas.openxmlformats.org/officeDocument/2006/math",
+						Math:  &OfficeMath{Xmlns: "http://schemas.openxmlformats.org/officeDocument/2006/math", RawXML: para.Math.Inner},
+					}
 				}
 			case "hyperlink", "smartTag", "ins", "moveTo", "fldSimple", "customXml", "sdt", "sdtContent":
 				// 这些元素只是包裹着Run（超链接、智能标记、修订插入、简单域、行内内容控件）：
